@@ -562,7 +562,7 @@ func buildSegments(fs fragSpec, extraOut *[]flat) ([]*mp4.MediaSegment, error) {
 				if single && n > 0 {
 					frag.EncOptimize = mp4.OptimizeTrun
 				}
-			case 2:
+			case 2, 3:
 				for _, traf := range frag.Moof.Trafs {
 					moveDefaults(traf)
 				}
@@ -591,19 +591,22 @@ func buildSegments(fs fragSpec, extraOut *[]flat) ([]*mp4.MediaSegment, error) {
 func encodeFragmented(fs fragSpec, withInit bool) ([]byte, error) {
 	var buf bytes.Buffer
 	var pos uint64
+	segs, err := buildSegments(fs, nil)
+	if err != nil {
+		return nil, err
+	}
 	if withInit {
 		init, err := buildInit(fs)
 		if err != nil {
 			return nil, err
 		}
+		if fs.defaults == 3 {
+			liftCommonToTrex(init, segs)
+		}
 		if err := init.Encode(&buf); err != nil {
 			return nil, err
 		}
 		pos = uint64(buf.Len())
-	}
-	segs, err := buildSegments(fs, nil)
-	if err != nil {
-		return nil, err
 	}
 	if err := encodeSegments(&buf, segs, pos, fs); err != nil {
 		return nil, err
@@ -724,4 +727,50 @@ func diffFlat(got, want []flat) string {
 		return fmt.Sprintf("got %d samples, want %d", len(got), len(want))
 	}
 	return ""
+}
+
+// liftCommonToTrex (defaults == 3): a tfhd default that every fragment's main traf carries with one common value is
+// moved to the trex of the init segment: the file then RELIES on trex defaults, as encoders that minimise the moof do.
+func liftCommonToTrex(init *mp4.InitSegment, segs []*mp4.MediaSegment) {
+	var trafs []*mp4.TrafBox
+	for _, s := range segs {
+		for _, f := range s.Fragments {
+			if len(f.Moof.Trafs) > 0 {
+				trafs = append(trafs, f.Moof.Trafs[0])
+			}
+		}
+	}
+	if len(trafs) == 0 {
+		return
+	}
+	trex := init.Moov.Mvex.Trex
+	common := func(bit uint32, get func(*mp4.TfhdBox) uint32) (uint32, bool) {
+		for _, t := range trafs {
+			if t.Tfhd.Flags&bit == 0 || get(t.Tfhd) != get(trafs[0].Tfhd) {
+				return 0, false
+			}
+		}
+		return get(trafs[0].Tfhd), true
+	}
+	if v, ok := common(0x8, func(h *mp4.TfhdBox) uint32 { return h.DefaultSampleDuration }); ok {
+		trex.DefaultSampleDuration = v
+		for _, t := range trafs {
+			t.Tfhd.Flags &^= 0x8
+			t.Tfhd.DefaultSampleDuration = 0
+		}
+	}
+	if v, ok := common(0x10, func(h *mp4.TfhdBox) uint32 { return h.DefaultSampleSize }); ok {
+		trex.DefaultSampleSize = v
+		for _, t := range trafs {
+			t.Tfhd.Flags &^= 0x10
+			t.Tfhd.DefaultSampleSize = 0
+		}
+	}
+	if v, ok := common(0x20, func(h *mp4.TfhdBox) uint32 { return h.DefaultSampleFlags }); ok {
+		trex.DefaultSampleFlags = v
+		for _, t := range trafs {
+			t.Tfhd.Flags &^= 0x20
+			t.Tfhd.DefaultSampleFlags = 0
+		}
+	}
 }
